@@ -101,14 +101,16 @@ Print Assumptions C08_no_stray_comment.
 
 (* ---- first sentence of C08 for enum and rest: the single file of -file= / -type=* has exactly the declarations,
    imports and free comments of the files that -type=T writes one at a time for the same types in the same order,
-   whatever those runs find in the directory and whatever the map iteration orders *)
+   whatever those runs find in the directory and whatever the map iteration orders.  An explicit -type=T can refuse
+   only a type that the all-in-one run skips silently (enum: a type without constants). *)
 Theorem C08_enum_all_in_one_is_concatenation : forall c (cT : string -> cmd) hw o disk st types fmap sm,
   (forall T, c_types (cT T) = [T] /\ c_file (cT T) = "" /\ c_ejson (cT T) = c_ejson c /\ c_etext (cT T) = c_etext c) ->
   separate c = false ->
   confirm_types (list_types_of CEnum) c o (mk_view hw disk []) = Some (types, fmap) ->
   generate (enum_make c) enum_render (list_types_of CEnum) c o hw disk st = Some sm ->
   (forall T o' disk' st', In T types ->
-     generate (enum_make (cT T)) enum_render (list_types_of CEnum) (cT T) o' hw disk' st' <> None) /\
+     generate (enum_make (cT T)) enum_render (list_types_of CEnum) (cT T) o' hw disk' st' = None ->
+     exists s, alone (enum_make c) hw estate0 T = MSkip s) /\
   forall o' disk' st',
     let singles := flat_map (fun T => single_file (generate (enum_make (cT T)) enum_render (list_types_of CEnum) (cT T) o' hw disk' st')) types in
     match sm with
@@ -127,7 +129,8 @@ Theorem C08_rest_all_in_one_is_concatenation : forall ro c (cT : string -> cmd) 
   confirm_types (list_types_of CRest) c o (mk_view hw disk []) = Some (types, fmap) ->
   generate (rest_make ro c) (fun _ d => rest_render d) (list_types_of CRest) c o hw disk st = Some sm ->
   (forall T o' disk' st', In T types ->
-     generate (rest_make ro (cT T)) (fun _ d => rest_render d) (list_types_of CRest) (cT T) o' hw disk' st' <> None) /\
+     generate (rest_make ro (cT T)) (fun _ d => rest_render d) (list_types_of CRest) (cT T) o' hw disk' st' = None ->
+     exists s, alone (rest_make ro c) hw rstate0 T = MSkip s) /\
   forall o' disk' st',
     let singles := flat_map (fun T => single_file (generate (rest_make ro (cT T)) (fun _ d => rest_render d) (list_types_of CRest) (cT T) o' hw disk' st')) types in
     match sm with
@@ -148,7 +151,8 @@ Theorem C08_new_all_in_one_is_concatenation : forall c (cT : string -> cmd) hw o
   confirm_types (list_types_of CNew) c o (mk_view hw disk []) = Some (types, fmap) ->
   generate (new_make c) nrender (list_types_of CNew) c o hw disk st = Some sm ->
   (forall T o' disk' st', In T types ->
-     generate (new_make (cT T)) nrender (list_types_of CNew) (cT T) o' hw disk' st' <> None) /\
+     generate (new_make (cT T)) nrender (list_types_of CNew) (cT T) o' hw disk' st' = None ->
+     exists s, alone (new_make c) hw nstate0 T = MSkip s) /\
   forall o' disk' st',
     let singles := flat_map (fun T => single_file (generate (new_make (cT T)) nrender (list_types_of CNew) (cT T) o' hw disk' st')) types in
     match sm with
@@ -202,8 +206,7 @@ Print Assumptions C08_single_run_is_step.
 (* ---- second sentence of C08: the order of the names in -type=A,B changes no file content.  The header quotes the
    command line, so it differs by construction: equal names, imports, declarations and free comments (nb).  For every
    generator that does not read generated files (enum, rest; new when no struct embeds a struct), any oracle, any
-   directory content; the file names of the listed types must be distinct (two types whose names differ only by case
-   share one output file). *)
+   directory content; no guard: when two listed types share an output file both orders are refused. *)
 Theorem C08_permutation_changes_no_content :
   forall (St Data : Type) (mk : cmd -> St -> pview -> string -> mres Data St) (render : St -> Data -> afile),
   (forall c st1 st2 v T, same_out render (mk c st1 v T) (mk c st2 v T)) ->
@@ -213,7 +216,6 @@ Theorem C08_permutation_changes_no_content :
     Permutation (c_types c) (c_types c') -> c_file c = c_file c' -> c_sub c = c_sub c' ->
     c_star c = false -> c_star c' = false ->
     (forall T st0 v, same_body render render (mk c st0 v T) (mk c' st0 v T)) ->
-    NoDup (map (out_name hw c (spec_fmap c o (mk_view hw disk []))) (c_types c)) ->
     match generate (mk c) render lt c o hw disk st, generate (mk c') render lt c' o hw disk st' with
     | Some sm, Some sm' => map nb (listing sm) = map nb (listing sm')
     | None, None => True
@@ -226,7 +228,6 @@ Theorem C08_enum_permutation : forall c c' hw o disk st st',
   specified c = true -> specified c' = true ->
   Permutation (c_types c) (c_types c') -> c_file c = c_file c' -> c_sub c = c_sub c' ->
   c_star c = false -> c_star c' = false -> c_ejson c = c_ejson c' -> c_etext c = c_etext c' ->
-  NoDup (map (out_name hw c (spec_fmap c o (mk_view hw disk []))) (c_types c)) ->
   match generate (enum_make c) enum_render (list_types_of CEnum) c o hw disk st,
         generate (enum_make c') enum_render (list_types_of CEnum) c' o hw disk st' with
   | Some sm, Some sm' => map nb (listing sm) = map nb (listing sm')
@@ -240,7 +241,6 @@ Theorem C08_rest_permutation : forall ro c c' hw o disk st st',
   specified c = true -> specified c' = true ->
   Permutation (c_types c) (c_types c') -> c_file c = c_file c' -> c_sub c = c_sub c' ->
   c_star c = false -> c_star c' = false ->
-  NoDup (map (out_name hw c (spec_fmap c o (mk_view hw disk []))) (c_types c)) ->
   match generate (rest_make ro c) rrender (list_types_of CRest) c o hw disk st,
         generate (rest_make ro c') rrender (list_types_of CRest) c' o hw disk st' with
   | Some sm, Some sm' => map nb (listing sm) = map nb (listing sm')
@@ -256,7 +256,6 @@ Theorem C08_new_permutation : forall c c' hw o disk st st',
   Permutation (c_types c) (c_types c') -> c_file c = c_file c' -> c_sub c = c_sub c' ->
   c_star c = false -> c_star c' = false ->
   c_getset c = c_getset c' -> c_json c = c_json c' -> c_opt c = c_opt c' ->
-  NoDup (map (out_name hw c (spec_fmap c o (mk_view hw disk []))) (c_types c)) ->
   match generate (new_make c) nrender (list_types_of CNew) c o hw disk st,
         generate (new_make c') nrender (list_types_of CNew) c' o hw disk st' with
   | Some sm, Some sm' => map nb (listing sm) = map nb (listing sm')
@@ -285,11 +284,11 @@ Theorem C08_refuted_K_embed_order :
 Proof. exact embed_order_permutation_matters. Qed.
 Print Assumptions C08_refuted_K_embed_order.
 
-Theorem C08_refuted_K_filename_case_clash :
-  map fst (toks_of_files (run_generate id_oracle (mkpkg hw_cc) [] c_cc_1)) = ["x.shootnew.foo.go"] /\
-  toks_of_files (run_generate id_oracle (mkpkg hw_cc) [] c_cc_1) <> toks_of_files (run_generate id_oracle (mkpkg hw_cc) [] c_cc_2).
-Proof. exact case_clash_permutation_matters. Qed.
-Print Assumptions C08_refuted_K_filename_case_clash.
+(* K_filename_case_clash is repaired in /repo: two selected types that map to one output file are refused, in any order *)
+Theorem C08_case_clash_is_refused :
+  run_generate id_oracle (mkpkg hw_cc) [] c_cc_1 = None /\ run_generate id_oracle (mkpkg hw_cc) [] c_cc_2 = None.
+Proof. exact case_clash_refused. Qed.
+Print Assumptions C08_case_clash_is_refused.
 
 Theorem C08_refuted_K_merge_stray_comment : option_map a_stray (merge [mk_file "x" two_decls]) = Some ["init"].
 Proof. exact merge_stray_comment. Qed.
@@ -338,7 +337,5 @@ Proof. reflexivity. Qed.
 Definition ex_cmd_ab : cmd := cmd_new "shoot new -getset -type=A,B" ["A"; "B"] true false.
 Definition ex_cmd_ba : cmd := cmd_new "shoot new -getset -type=B,A" ["B"; "A"] true false.
 Example C08_example_permutation_hypotheses :
-  specified ex_cmd_ab = true /\ specified ex_cmd_ba = true /\ Permutation (c_types ex_cmd_ab) (c_types ex_cmd_ba) /\
-  map (out_name hw_ab ex_cmd_ab (spec_fmap ex_cmd_ab id_oracle (mk_view hw_ab [] []))) (c_types ex_cmd_ab) =
-    ["a.shootnew.a.go"; "a.shootnew.b.go"].
-Proof. split; [reflexivity|]. split; [reflexivity|]. split; [apply perm_swap | reflexivity]. Qed.
+  specified ex_cmd_ab = true /\ specified ex_cmd_ba = true /\ Permutation (c_types ex_cmd_ab) (c_types ex_cmd_ba).
+Proof. split; [reflexivity|]. split; [reflexivity | apply perm_swap]. Qed.
